@@ -2712,15 +2712,17 @@ func (dsc *dataStoreCommand) setOperationCount(
 
 func (dsc *dataStoreCommand) diffWorker(firstKey string, keyNames ...string) (d *redisDict, wrongType bool) {
 	sk, objExists := dsc.getKeyObjectUnlocked(firstKey)
-	if !objExists {
-		d = newRedisDict()
-		return
-	}
 
-	m := sk.getSet()
-	if m == nil {
-		wrongType = true
-		return
+	var m *redisDict
+	if !objExists {
+		// a missing key is an empty set; the other operands are still type checked
+		m = newRedisDict()
+	} else {
+		m = sk.getSet()
+		if m == nil {
+			wrongType = true
+			return
+		}
 	}
 
 	d = m.clone()
